@@ -10,7 +10,11 @@ CLAIM = dict(
           "the binary element-wise view (broadcast_arrays, then ufunc_t::operator()) exists exactly when NumPy broadcasts the two "
           "shapes, has NumPy's broadcast shape, and element i = f(a[i'], b[i'']) where i', i'' are i with stretched axes read at 0 and "
           "prepended axes dropped (both reads in bounds); the same for three operands (where); unary views keep the shape; the outer "
-          "variant has shape shape(a)++shape(b) and element (i++j) = f(a[i], b[j]); scalars are operands of shape []. The element-type "
+          "variant has shape shape(a)++shape(b) and element (i++j) = f(a[i], b[j]); scalars are operands of shape []. In the model a view is a VALUE "
+          "over its leaf arrays (an operand is a shape and an element function; composing views composes the functions); the correspondence checks "
+          "the ownership that makes this true: a 'deferred evaluation' stream builds composed views (unary of a view, binary / outer / where with view "
+          "and scalar temporaries on either side) inside a noinline helper, returns them by value, calls the helper twice with different data and "
+          "only then reads every element (run-time shaped arrays and fixed-shape nested std::array; ndebug and ASan). The element-type "
           "table promote_cxx (C++ integral promotion + usual arithmetic conversions, LP64) is symmetric, never narrower than int, one of "
           "the promoted operand types, floating iff an operand is — decided exhaustively over the 11x11 type pairs. "
           "CORRESPONDENCE ONLY: (a) routing: view::add/subtract/multiply/less, a custom non-commutative non-associative op 3x-y through "
@@ -28,7 +32,7 @@ CLAIM = dict(
                          "model; C++-side oracle for function identity", extra="")
 RULE = ("all ordered pairs of shapes dim 0..3 extents 1..3 (dim 0 = scalar), compatible or not, op / operand kind rotating; a "
         "compatible-biased stream of stretched shapes for binary, ternary (where) and outer; every function name once for the identity "
-        "check; 200 sampled rank-4 pairs; every numeric type pair x op for the element-type table. non-trivial = an operand of dim >= 2 with an extent > 1; "
+        "check; 200 sampled rank-4 pairs; 320 deferred-evaluation cases (8 composed forms x run-time / fixed shapes); every numeric type pair x op for the element-type table. non-trivial = an operand of dim >= 2 with an extent > 1; "
         "distinct = distinct case lines")
 THEOREM_STATUS = {"proved": ["C07_unary", "C07_binary_shape", "C07_binary_elem", "C07_ternary", "C07_outer", "C07_dtype_table"],
                   "partial": [], "refuted": []}
@@ -102,6 +106,23 @@ def gen_cases(rng, tier):
         b = stretch(t)
         if rng.random() < 0.5: a, b = b, a
         out.append(("rank4", "ufunc2 S:%s S:%s S:arr %s %s" % (OPS2[i % 6], ["arr", "view"][i % 2] if a else "arr", operand(rng, a), operand(rng, b)), "c07"))
+    # deferred evaluation: composed views built from temporaries inside a helper, two calls before either result is read
+    FORMS = ["u1", "binl", "binr", "bins", "outl", "outr", "outs", "wh"]
+    def arr(shape, lo=-9, hi=9): return "A:%s:%s" % (",".join(map(str, shape)), ",".join(str(rng.randint(lo, hi)) for _ in range(size(shape))))
+    for i in range(320 if tier == "quick" else 2400):
+        form = FORMS[i % 8]
+        if (i // 8) % 4 == 3: kind, sa, sb = "fs", (2, 3), (3,)
+        else:
+            kind = "dyn"; t = rng.choice(shapes[1:])
+            if form.startswith("out"):
+                sa, sb = rng.choice(shapes[1:]), rng.choice(shapes[1:])
+                if len(sa) + len(sb) > 4: sa, sb = sa[:2], sb[:2]
+            else:
+                sa = tuple(1 if rng.random() < 0.3 else e for e in t); sb = stretch(t) or (1,)
+                if form == "wh": sa = t                         # where takes its shape from the broadcast of all three
+        lo = 0 if form == "wh" else -9
+        out.append(("deferred", "defer S:%s S:%s %s %s I:%d %s %s I:%d" % (form, kind, arr(sa, lo, 9 if form != "wh" else 2), arr(sb), rng.randint(-5, 5),
+                                                                            arr(sa, lo, 9 if form != "wh" else 2), arr(sb), rng.randint(-5, 5)), "c07"))
     for f in FNS: out.append(("identity", "ident S:%s" % f, "c07i"))
     for f in FNS[:39]: out.append(("identity", "ident S:%s S:f32" % f, "c07i"))    # unary math functions on float data
     for op in ["add", "subtract", "multiply", "divide", "less", "equal"]:
